@@ -33,17 +33,17 @@ Section L.
   Qed.
 
   (* ---- has-more of the code as it is: a further row is visited after the need-th kept row ---- *)
-  Lemma scan_more_faithful : forall s need, 0 <= need ->
-    (snd (scan false from to fe s need) = true <->
+  Lemma scan_more_faithful : forall fx, f_more fx = false -> forall s need, 0 <= need ->
+    (snd (scan fx from to fe s need) = true <->
      exists pre r post, s = pre ++ r :: post /\ cnt pre = need).
   Proof.
-    induction s as [|r s IH]; intros need Hn; simpl.
+    intros fx Hm. induction s as [|r s IH]; intros need Hn; cbn [scan].
     - split; [discriminate | intros [pre [r [post [E _]]]]; destruct pre; discriminate].
-    - destruct (need <=? 0) eqn:E.
-      + apply Z.leb_le in E. simpl. split; auto. intros _. exists [], r, s; split; auto. unfold cnt; simpl; lia.
+    - rewrite Hm. destruct (need <=? 0) eqn:E.
+      + apply Z.leb_le in E. cbn [snd]. split; auto. intros _. exists [], r, s; split; auto. unfold cnt; simpl; lia.
       + apply Z.leb_gt in E. destruct (inr r) eqn:Er.
         * specialize (IH (need - 1) ltac:(lia)).
-          destruct (scan false from to fe s (need - 1)) as [a b]; simpl in *. rewrite IH. split.
+          destruct (scan fx from to fe s (need - 1)) as [a b]; cbn [snd] in *. rewrite IH. split.
           -- intros [pre [r' [post [E1 E2]]]]. exists (r :: pre), r', post; split; [subst; reflexivity|].
              rewrite cnt_cons, Er; lia.
           -- intros [pre [r' [post [E1 E2]]]]. destruct pre as [|x pre].
@@ -67,32 +67,42 @@ Section L.
       + rewrite IH; lia.
   Qed.
 
-  Lemma scan_more_fixed : forall s need, 0 <= need ->
-    (snd (scan true from to fe s need) = true <-> need < cnt s).
+  (* no has-more (code as it is, or repaired): all in-window rows of the visiting order fit the quota *)
+  Lemma scan_nomore_cnt : forall fx s need, 0 <= need -> snd (scan fx from to fe s need) = false -> cnt s <= need.
   Proof.
-    induction s as [|r s IH]; intros need Hn.
+    induction s as [|r s IH]; intros need Hn H; cbn [scan] in H.
+    - unfold cnt; simpl; lia.
+    - destruct (need <=? 0) eqn:E.
+      + apply Z.leb_le in E. cbn [snd] in H. destruct (f_more fx); [|discriminate].
+        destruct (Z_lt_dec 0 (cnt (r :: s))) as [X | X]; [|lia].
+        apply existsb_cnt in X. congruence.
+      + apply Z.leb_gt in E. rewrite cnt_cons. destruct (inr r) eqn:Er.
+        * specialize (IH (need - 1) ltac:(lia)).
+          destruct (scan fx from to fe s (need - 1)) as [a b]; cbn [snd] in *. specialize (IH H). lia.
+        * specialize (IH need Hn H). lia.
+  Qed.
+
+  Lemma scan_more_fixed : forall fx, f_more fx = true -> forall s need, 0 <= need ->
+    (snd (scan fx from to fe s need) = true <-> need < cnt s).
+  Proof.
+    intros fx Hm. induction s as [|r s IH]; intros need Hn.
     - simpl. unfold cnt; simpl. split; [discriminate | lia].
-    - cbn [scan]. destruct (need <=? 0) eqn:E.
+    - cbn [scan]. rewrite Hm. destruct (need <=? 0) eqn:E.
       + apply Z.leb_le in E. cbn [snd]. rewrite existsb_cnt. assert (need = 0) by lia; subst; reflexivity.
       + apply Z.leb_gt in E. rewrite cnt_cons. destruct (inr r) eqn:Er.
         * specialize (IH (need - 1) ltac:(lia)).
-          destruct (scan true from to fe s (need - 1)) as [a b]; cbn [snd] in *. rewrite IH; lia.
+          destruct (scan fx from to fe s (need - 1)) as [a b]; cbn [snd] in *. rewrite IH; lia.
         * rewrite (IH need Hn); lia.
   Qed.
 
-  (* the repaired group test drops only groups without in-window rows: nothing of the window is lost *)
-  Lemma filter_skip_fixed : forall gs,
-    filter inr (concat (filter (fun g => negb (group_skipped true from to fe g)) gs)) = filter inr (concat gs).
+  (* with the ends-only test gone every time slot is visited: nothing of the window is lost *)
+  Lemma scan_seq_fixed : forall fx, f_skip fx = true -> forall gs,
+    scan_seq fx from to fe gs = concat (if fe then rev gs else gs).
   Proof.
-    induction gs as [|g gs IH]; [reflexivity|].
-    cbn [filter concat]. destruct (group_skipped true from to fe g) eqn:E; cbn [negb concat].
-    - rewrite filter_app, IH.
-      assert (X : filter inr g = []).
-      { destruct g as [|r0 g]; [reflexivity|]. unfold group_skipped in E. apply negb_true_iff in E.
-        remember (r0 :: g) as l. clear Heql. induction l as [|x l IHl]; simpl in *; auto.
-        apply orb_false_iff in E; destruct E as [E1 E2]. rewrite E1; auto. }
-      rewrite X; reflexivity.
-    - rewrite !filter_app, IH; reflexivity.
+    intros fx Hs gs; unfold scan_seq. f_equal. generalize (if fe then rev gs else gs) as l.
+    induction l as [|g l IH]; simpl; auto.
+    assert (X : group_skipped fx from to fe g = false) by (unfold group_skipped; destruct g; auto; rewrite Hs; reflexivity).
+    rewrite X; simpl. rewrite IH; reflexivity.
   Qed.
 
   Lemma cnt_concat_rev : forall gs : list (list row), cnt (concat (rev gs)) = cnt (concat gs).
@@ -101,11 +111,9 @@ Section L.
     rewrite concat_app, !cnt_app, IH; simpl. rewrite app_nil_r. lia.
   Qed.
 
-  Lemma cnt_scan_seq_fixed : forall gs, cnt (scan_seq true from to fe gs) = cnt (concat gs).
+  Lemma cnt_scan_seq_fixed : forall fx, f_skip fx = true -> forall gs, cnt (scan_seq fx from to fe gs) = cnt (concat gs).
   Proof.
-    intros gs. transitivity (cnt (concat (if fe then rev gs else gs))).
-    - unfold scan_seq, cnt. rewrite filter_skip_fixed. reflexivity.
-    - pose proof (cnt_concat_rev gs). destruct fe; auto.
+    intros fx Hs gs. rewrite (scan_seq_fixed fx Hs). pose proof (cnt_concat_rev gs). destruct fe; auto.
   Qed.
 
   (* ================= limitQueries ================= *)
@@ -144,34 +152,55 @@ Section L.
     intros; rewrite limit_queries_rows, firstn_length. lia.
   Qed.
 
-  (* in the repaired variant no in-window row is lost by the group test *)
-  Theorem limit_queries_rows_fixed : forall gs limit,
-    fst (limit_queries true from to fe gs limit) =
+  (* with the ends-only test gone no in-window row is lost *)
+  Theorem limit_queries_rows_fixed : forall fx, f_skip fx = true -> forall gs limit,
+    fst (limit_queries fx from to fe gs limit) =
     firstn (Z.to_nat limit) (filter inr (concat (if fe then rev gs else gs))).
-  Proof. intros; rewrite limit_queries_rows. unfold scan_seq. rewrite filter_skip_fixed. reflexivity. Qed.
+  Proof. intros fx Hs gs limit; rewrite limit_queries_rows, (scan_seq_fixed fx Hs). reflexivity. Qed.
 
   (* has-more, exact characterisation for the code as it is *)
-  Theorem limit_queries_more_faithful : forall gs limit,
-    snd (limit_queries false from to fe gs limit) = true <->
+  Theorem limit_queries_more_faithful : forall fx, f_more fx = false -> forall gs limit,
+    snd (limit_queries fx from to fe gs limit) = true <->
     (limit <= 0 /\ gs <> []) \/
-    (0 < limit /\ exists pre r post, scan_seq false from to fe gs = pre ++ r :: post /\ cnt pre = limit).
+    (0 < limit /\ exists pre r post, scan_seq fx from to fe gs = pre ++ r :: post /\ cnt pre = limit).
   Proof.
-    intros gs limit; unfold limit_queries. destruct (limit <=? 0) eqn:E.
+    intros fx Hm gs limit; unfold limit_queries. rewrite Hm. destruct (limit <=? 0) eqn:E.
     - apply Z.leb_le in E. simpl. destruct gs; simpl; split; intros H; try discriminate.
       + destruct H as [[_ H] | [H _]]; [contradiction | lia].
       + left; split; auto; discriminate.
       + reflexivity.
-    - apply Z.leb_gt in E. rewrite scan_more_faithful by lia. split.
+    - apply Z.leb_gt in E. rewrite (scan_more_faithful fx Hm) by lia. split.
       + intros H; right; split; auto.
       + intros [[H _] | [_ H]]; [lia | auto].
   Qed.
 
-  (* has-more of the repaired variant = "rows beyond the limit exist" *)
-  Theorem limit_queries_more_fixed : forall gs limit,
-    snd (limit_queries true from to fe gs limit) = true <-> Z.max 0 limit < cnt (concat gs).
+  (* has-more with F-C25c repaired: more in-window rows in the visiting order than the limit ... *)
+  Theorem limit_queries_more_fixed_seq : forall fx, f_more fx = true -> forall gs limit,
+    snd (limit_queries fx from to fe gs limit) = true <-> Z.max 0 limit < cnt (scan_seq fx from to fe gs).
   Proof.
-    intros gs limit; unfold limit_queries. destruct (limit <=? 0) eqn:E.
+    intros fx Hm gs limit; unfold limit_queries. rewrite Hm. destruct (limit <=? 0) eqn:E.
     - apply Z.leb_le in E. simpl. rewrite existsb_cnt. lia.
-    - apply Z.leb_gt in E. rewrite scan_more_fixed by lia. rewrite cnt_scan_seq_fixed. lia.
+    - apply Z.leb_gt in E. rewrite (scan_more_fixed fx Hm) by lia. lia.
+  Qed.
+
+  (* ... and with F-C25d repaired as well = "rows beyond the limit exist" in the storage answer *)
+  Theorem limit_queries_more_fixed : forall fx, f_more fx = true -> f_skip fx = true -> forall gs limit,
+    snd (limit_queries fx from to fe gs limit) = true <-> Z.max 0 limit < cnt (concat gs).
+  Proof.
+    intros fx Hm Hs gs limit. rewrite (limit_queries_more_fixed_seq fx Hm), (cnt_scan_seq_fixed fx Hs). reflexivity.
+  Qed.
+
+  (* no has-more: the LOD contributed all its visible in-window rows *)
+  Theorem limit_queries_nomore : forall fx gs limit,
+    snd (limit_queries fx from to fe gs limit) = false ->
+    Z.of_nat (length (fst (limit_queries fx from to fe gs limit))) = (if limit <=? 0 then 0 else cnt (scan_seq fx from to fe gs)) /\
+    (0 < limit -> cnt (scan_seq fx from to fe gs) <= limit).
+  Proof.
+    intros fx gs limit H. rewrite limit_queries_rows. unfold limit_queries in H.
+    destruct (limit <=? 0) eqn:E.
+    - apply Z.leb_le in E. replace (Z.to_nat limit) with O by lia. simpl. split; [reflexivity | lia].
+    - apply Z.leb_gt in E. assert (Hl : 0 <= limit) by lia. pose proof (scan_nomore_cnt fx (scan_seq fx from to fe gs) limit Hl H) as C. split; [|auto].
+      rewrite firstn_length. unfold cnt in *. rewrite Nat.min_r; [reflexivity|].
+      apply Nat2Z.inj_le. rewrite Z2Nat.id by lia. exact C.
   Qed.
 End L.
